@@ -1,4 +1,5 @@
 """Shared bits for the per-property modules."""
+import os
 import acc
 
 TRUSTED = [
@@ -101,7 +102,60 @@ def dep_fast_paths(run, F):
     B.check_fast_paths(run, F)
 
 
-DEPS = {'wrappers': dep_wrappers, 'fast_paths': dep_fast_paths, 'casts': dep_casts, 'drivers': dep_drivers, 'isnone': dep_isnone, 'accessors': dep_accessors, 'agg_gates': dep_agg_gates}
+ORD_RULE = ('ordering and equality of the library\'s own element types (DateTime<U>, Time, TimeDelta) are the '
+            'derived, field-wise ones over the representation, or a hand-written impl whose decision table is '
+            'confirmed in rules/pinned/time_ord.json (TimeDelta: months, then the duration at full resolution): '
+            'vclip, vcut, the null-last comparators and every sort compare elements through them')
+
+
+def _is_derive_site(callsite):
+    """the expansion call site `file:l:c-l:c` is a trait name inside a `#[derive(..)]` attribute"""
+    import re
+    import extract
+    m = re.match(r'(.+?):(\d+):(\d+)', callsite or '')
+    if not m:
+        return False
+    try:
+        lines = open(os.path.join(extract.REPO, m.group(1))).read().splitlines()
+    except OSError:
+        return False
+    ln = int(m.group(2)) - 1
+    for k in range(ln, max(-1, ln - 6), -1):
+        if k >= len(lines):
+            return False
+        if '#[derive(' in lines[k]:
+            return True
+        if k != ln and ']' in lines[k]:
+            return False
+    return False
+
+
+def dep_ord(run, F):
+    """PartialEq / PartialOrd / Ord of DateTime, Time, TimeDelta: derived or pinned"""
+    import pinned
+    run.rule('ORD.elem', ORD_RULE)
+    spec = pinned.load('time_ord')
+    listed = {e['fn'] for e in spec['functions']}
+    n = 0
+    for f in F.fns:
+        if f.crate != 'tea_time' or not f.impl_trait or f.name not in ('eq', 'ne', 'partial_cmp', 'cmp', 'lt', 'le', 'gt', 'ge', 'max', 'min', 'clamp'):
+            continue
+        if f.impl_trait.split('<')[0].split('::')[-1] not in ('PartialEq', 'PartialOrd', 'Ord'):
+            continue
+        if (f.impl_self or '').split('<')[0].split('::')[-1] not in ('DateTime', 'Time', 'TimeDelta'):
+            continue
+        n += 1
+        derived = bool(f.d.get('exp')) and _is_derive_site(f.d.get('callsite'))
+        pinned_ = f.qpath in listed
+        run.ob('ORD.elem', f, '%s::%s for %s' % (f.impl_trait.split('::')[-1], f.name, f.impl_self), derived or pinned_,
+               f.loc(), 'derived over the representation' if derived else
+               'hand-written, table confirmed (PIN.table)' if pinned_ else
+               'hand-written comparison of an element type that is not in rules/pinned/time_ord.json')
+    run.floor('ORD.elem', 'ordering / equality methods of the time element types', n, 8)
+    pinned.check(run, F, 'time_ord')
+
+
+DEPS = {'ord': dep_ord, 'wrappers': dep_wrappers, 'fast_paths': dep_fast_paths, 'casts': dep_casts, 'drivers': dep_drivers, 'isnone': dep_isnone, 'accessors': dep_accessors, 'agg_gates': dep_agg_gates}
 
 
 def deps(run, F, *groups):
